@@ -598,7 +598,58 @@ def gen_lazy():
     return '\n'.join(out)
 
 
-GENERATORS = {'Consts.v': gen_consts, 'EntryPoints.v': gen_entrypoints, 'Extras.v': gen_extras, 'Tokens.v': gen_tokens, 'Colorful.v': gen_colorful, 'Lazy.v': gen_lazy}
+# --------------------------------------------------------------- Promotion --
+def gen_promotion():
+    """shape of the promotion of a lazily registered printer (is_registered + register_pretty):
+    which operations touch the shared tables, in which order"""
+    pp = parse('prettyprinter.py')
+    isr = find_func(pp, 'is_registered')
+    src_lines = {}
+
+    def shape_of(stmts):
+        """the promotion block for one class expression: [(op, line)]"""
+        ops = []
+        for st in stmts:
+            for n in ast.walk(st):
+                if isinstance(n, ast.Call) and isinstance(n.func, ast.Attribute) and \
+                        isinstance(n.func.value, ast.Name) and n.func.value.id == '_DEFERRED_DISPATCH_BY_NAME':
+                    ops.append((n.func.attr + ('_default' if len(n.args) == 2 else ''), n.lineno))
+                if isinstance(n, ast.Compare) and any(isinstance(o, ast.In) for o in n.ops) and any(
+                        isinstance(c, ast.Name) and c.id == '_DEFERRED_DISPATCH_BY_NAME' for c in n.comparators):
+                    ops.append(('contains', n.lineno))
+                if isinstance(n, ast.Call) and isinstance(n.func, ast.Call) and isinstance(n.func.func, ast.Name) \
+                        and n.func.func.id == 'register_pretty':
+                    ops.append(('register_pretty', n.lineno))
+        return sorted(ops, key=lambda x: x[1])
+    ops = shape_of(isr.body)
+    kinds = [k for k, _l in ops]
+    need(kinds in (['get', 'register_pretty', 'get', 'register_pretty'],
+                   ['contains', 'pop', 'register_pretty', 'contains', 'pop', 'register_pretty']),
+         'is_registered: promotion is get+register_pretty or contains+pop+register_pretty (exact type, then supertypes): %r' % kinds)
+    form = 'get_register' if kinds[0] == 'get' else 'contains_pop_register'
+    # register_pretty's decorator: registry write, then pop with default
+    rp = find_func(pp, 'register_pretty')
+    dec = [n for n in rp.body if isinstance(n, ast.FunctionDef) and n.name == 'decorator']
+    need(len(dec) == 1, 'register_pretty.decorator')
+    reg = [n for n in ast.walk(dec[0]) if isinstance(n, ast.Call) and ast.unparse(n.func) == 'pretty_dispatch.register']
+    pops = [n for n in ast.walk(dec[0]) if isinstance(n, ast.Call) and ast.unparse(n.func) == '_DEFERRED_DISPATCH_BY_NAME.pop']
+    need(len(reg) == 1, 'decorator: one pretty_dispatch.register call')
+    pop_default = len(pops) == 1 and len(pops[0].args) == 2 and isinstance(pops[0].args[1], ast.Constant) \
+        and pops[0].args[1].value is None
+    register_then_pop = len(pops) == 1 and reg[0].lineno < pops[0].lineno
+    lines = {'first_op': ops[0][1], 'second_op': ops[1][1], 'register': reg[0].lineno,
+             'pop': pops[0].lineno if pops else 0}
+    out = ['(* GENERATED by harness/translate.py from prettyprinter.py (is_registered, register_pretty) - do not edit *)',
+           'From Coq Require Import String Bool.',
+           'Definition promotion_form : string := %s.' % coq_string(form),
+           'Definition decorator_registers_then_pops : bool := %s.' % ('true' if register_then_pop else 'false'),
+           'Definition decorator_pop_has_default : bool := %s.' % ('true' if pop_default else 'false'),
+           '(* source lines (for the scheduler): %r *)' % lines,
+           '']
+    return '\n'.join(out), lines
+
+
+GENERATORS = {'Consts.v': gen_consts, 'EntryPoints.v': gen_entrypoints, 'Extras.v': gen_extras, 'Tokens.v': gen_tokens, 'Colorful.v': gen_colorful, 'Lazy.v': gen_lazy, 'Promotion.v': (lambda: gen_promotion()[0])}
 
 
 def generate():
